@@ -241,7 +241,7 @@ class Models(object):
                      'isscalar', 'clip', 'cumsum', 'mean', 'sort', 'argsort', 'copy', 'meshgrid', 'allclose',
                      'isclose', 'expand_dims', 'broadcast_to', 'array_equal', 'count_nonzero', 'trapz',
                      'nanmedian', 'flip', 'tile', 'repeat', 'unravel_index', 'cumprod', 'take', 'ascontiguousarray',
-                     'column_stack', 'real_if_close', 'issubdtype', 'polyfit', 'polyval', 'fliplr', 'flipud', 'triu', 'tril', 'copyto', 'unique'):
+                     'column_stack', 'real_if_close', 'ptp', 'vdot', 'putmask', 'issubdtype', 'polyfit', 'polyval', 'fliplr', 'flipud', 'triu', 'tril', 'copyto', 'unique'):
             fn = getattr(self, 'np_' + name, None)
             if fn is None:
                 fn = self._unmodelled('np.' + name)
@@ -854,7 +854,15 @@ class Models(object):
             from .absint import sym_minmax
             if len(items) == 1:
                 return items[0]
-            return sym_minmax(which, items)
+            # an ordering hypothesis / sign information may decide every comparison
+            best = items[0]
+            for v in items[1:]:
+                r = ndarr.s_cmp('>' if which == 'max' else '<', v, best)
+                if r is True:
+                    best = v
+                elif r is not False:
+                    return sym_minmax(which, items)
+            return best
 
         def f(a, axis=None, **kw):
             return self._reduce(a, axis, red, name)
@@ -863,6 +871,47 @@ class Models(object):
     def np_max(self, a, axis=None, **kw):
         return self._extreme('max', 'maximum')(a, axis)
     np_amax = np_max
+
+    def np_ptp(self, a, axis=None, **kw):
+        return self._bin(s_sub, self.np_max(a, axis), self.np_min(a, axis))
+
+    def np_vdot(self, a, b):
+        """sum(conj(a) * b) over the flattened arguments (numpy conjugates the first one)."""
+        a, b = self.np_asarray(a).ravel(), self.np_asarray(b).ravel()
+        if a.size != b.size:
+            raise InterpValueError('cannot reshape array of size %d into shape (%d,)' % (b.size, a.size))
+        acc = 0
+        for x, y in zip(a.items(), b.items()):
+            acc = s_add(acc, s_mul(self.scalar_fn('conj', x), y))
+        return acc
+
+    def np_putmask(self, a, mask, values):
+        """a.flat[n] = values[n % len(values)] for every n where mask.flat[n] is true - the value is picked by the
+        *position* n, not by a running count of the true entries (that is np.place)."""
+        if not isinstance(a, Arr):
+            raise InterpTypeError('putmask: argument 1 must be numpy.ndarray')
+        m = broadcast_to(self.np_asarray(mask), a.shape).items()
+        vals = self.np_asarray(values).ravel().items()
+        if not vals:
+            raise InterpValueError('putmask: empty values')
+        if self.interp is not None and self.interp.on_store is not None:
+            self.interp.on_store(a, ('putmask', mask), values)
+        for n_, mk in enumerate(m):
+            v = vals[n_ % len(vals)]
+            p_ = a.pos[n_]
+            if mk is True or (isinstance(mk, int) and not isinstance(mk, bool) and mk != 0):
+                if a.kind == 'i':
+                    ndarr.check_int_store(a, v)
+                a.buf.data[p_] = v
+                a.buf.writes.append((p_, getattr(a, '_where', None)))
+            elif mk is False or mk == 0:
+                continue
+            elif isinstance(mk, Unk):
+                a.buf.data[p_] = ndarr.mk_choice(mk, v, a.buf.data[p_])
+                a.buf.writes.append((p_, getattr(a, '_where', None)))
+            else:
+                raise AnalysisError('np.putmask mask element %r' % (mk,))
+        return None
 
     def np_min(self, a, axis=None, **kw):
         return self._extreme('min', 'minimum')(a, axis)
